@@ -187,6 +187,28 @@ def rest_values(res, tier):
                                  % (code, v, endpoint, what, out),
                                  {'suite': 'update', 'rest_value': {'session': what, 'endpoint': endpoint, 'code': code, 'value': v},
                                   'sent': out, 'expected': want}, key='rest-value')
+            # extended communities in the decoder's text form (C06: "communities in the decoder's text form"): every
+            # two-octet type the decoder renders as text, with boundary values; what is sent must decode to the text given
+            import struct as _st
+            for typ in (0x0002, 0x0102, 0x0202, 0x0003, 0x0103, 0x0203, 0x030b, 0x030c, 0x0806, 0x8008, 0x4004):
+                for val in (bytes(6), bytes([0, 1, 0, 0, 0, 1]), bytes([0xfa, 0x56, 0xea, 0x00, 0, 0]), bytes([255] * 6),
+                            bytes([0, 1, 0, 0, 0xff, 0xff])):
+                    raw = _st.pack('!H', typ) + val
+                    d = X.ext_parse(raw)
+                    if 'ok' not in d or len(d['ok']) != 1 or not isinstance(d['ok'][0], str):
+                        continue
+                    text = d['ok'][0]
+                    out = rest.post_attr(endpoint, 16, [text])
+                    res.stats.case(('rest-extcomm', what, endpoint, raw.hex()), sample=None)
+                    res.stats.hit('rest_extcomm_' + what)
+                    if 'hex' not in out:
+                        continue            # a refusal is C17's matter (the text is not accepted back), not a wrong UPDATE
+                    again = X.ext_parse(bytes.fromhex(out['hex'])[3:])
+                    if again != {'ok': [text]}:
+                        res.fail('C06', 'extended community %r asked for over REST %s (%s session) is sent as octets that decode to %r'
+                                 % (text, endpoint, what, again),
+                                 {'suite': 'update', 'rest_value': {'session': what, 'endpoint': endpoint, 'code': 16, 'value': [text]},
+                                  'sent': out}, key='rest-value')
             for v in (0, 1, 2):
                 out = rest.post_attr(endpoint, 1, v)
                 res.stats.case(('rest-value', what, endpoint, 1, v), sample=None)
